@@ -355,58 +355,6 @@ fn ctor_panics() -> Option<Bad> {
     None
 }
 
-/// Unwinding: the source fails (panics) once, on the call after `trip` successful pulls; the caller
-/// catches it and calls next() again on the same converter. A failed call hands no frame over, so
-/// the frames handed over are still pulled exactly floor(P_n) deep, none skipped, none re-read:
-/// the outputs of the successful calls and the pull counts must equal those of a failure-free run.
-fn fault_case(lin: bool, r: f64, trip: usize) -> Option<Bad> {
-    let frames: Vec<f64> = (0..64).map(|n| (n + 1) as f64).collect();
-    let run = |trip: Option<usize>| -> Result<Vec<(f64, usize)>, String> {
-        let (mut p, c) = Probe::new(frames.clone());
-        let mut out = Vec::new();
-        let mut failures = 0;
-        macro_rules! drive {
-            ($conv:expr) => {{
-                let mut conv = $conv;
-                c.trip.set(trip.map(|t| t + c.pulls()));
-                while out.len() < 12 {
-                    match catch(|| conv.next()) {
-                        Ok(f) => out.push((f, c.pulls())),
-                        Err(m) if m.contains("injected source failure") && failures == 0 => failures += 1,
-                        Err(m) => return Err(m),
-                    }
-                }
-            }};
-        }
-        if lin {
-            let (a, b) = (p.next(), p.next());
-            drive!(Converter::scale_playback_hz(p, Linear::new(a, b), r));
-        } else {
-            let a = p.next();
-            drive!(Converter::scale_playback_hz(p, Floor::new(a), r));
-        }
-        Ok(out)
-    };
-    let tag = format!("{} interpolator, ratio {r}, source failing once (caught) after {trip} pulls by the converter", if lin { "linear" } else { "floor" });
-    let clean = match run(None) {
-        Ok(o) => o,
-        Err(m) => return Some(("conv.panic".into(), format!("{tag}: failure-free run panicked: {m}"))),
-    };
-    let faulty = match run(Some(trip)) {
-        Ok(o) => o,
-        Err(m) => return Some(("conv.panic".into(), format!("{tag}: panicked: {m}"))),
-    };
-    for (n, (a, b)) in clean.iter().zip(faulty.iter()).enumerate() {
-        if a.1 != b.1 {
-            return Some(("conv.unwind".into(), format!("{tag}: after output {n} the source had handed over {} frames, {} in the failure-free run (exactly floor(P_n) frames, none skipped)", b.1, a.1)));
-        }
-        if a.0.to_bits() != b.0.to_bits() {
-            return Some(("conv.unwind".into(), format!("{tag}: output {n} = {}, {} in the failure-free run (outputs so far {:?})", b.0, a.0, faulty[..=n].iter().map(|x| x.0).collect::<Vec<_>>())));
-        }
-    }
-    None
-}
-
 /// A cloneable interpolator (the stock ones do not implement Clone): holds the newest source frame.
 #[derive(Clone)]
 struct Hold(f64);
@@ -505,9 +453,6 @@ fn main() {
         let _guard_scope = guard::scoped(&v.to_string());
         if v["sys"] == "conv_clone" {
             ctx.finish_replay(clone_case(bits(&v["r"]), v["k"].as_u64().unwrap_or(0) as usize, v["via_clone_from"] == true, v["mul"] == true).map(|e| format!("{}: {}", e.0, e.1)));
-        }
-        if v["sys"] == "conv_fault" {
-            ctx.finish_replay(fault_case(v["lin"] == true, bits(&v["r"]), v["trip"].as_u64().unwrap_or(0) as usize).map(|e| format!("{}: {}", e.0, e.1)));
         }
         if v["sys"] == "long" {
             ctx.finish_replay(long_run(bits(&v["r"]), v["outputs"].as_u64().unwrap_or(1000) as usize).map(|e| e.1));
@@ -636,24 +581,6 @@ fn main() {
     }
     ctx.add_evals(clone_n * 24);
     ctx.rule("clone mid-history: converter (constant ratio) and mul_hz (per-frame ratio) over a cloneable interpolator x 7 ratios x replaced after 0..16 outputs by its clone() or by clone_from() into a copy made at the start: 24 outputs, frames pulled and exhaustion flags equal those of the run without the replacement");
-    // unwinding: a source that fails once, caught by the caller
-    let mut fault_n = 0u64;
-    for lin in [false, true] {
-        for r in [0.25f64, 0.5, 0.75, 1.0, 1.5, 2.0, 2.75, 3.0, 5.0] {
-            for trip in 0..12usize {
-                let case = json!({"sys":"conv_fault","lin":lin,"r":r.to_bits().to_string(),"trip":trip});
-                let _guard_scope = guard::scoped(&case.to_string());
-                fault_n += 1;
-                match catch(|| fault_case(lin, r, trip)) {
-                    Ok(None) => {}
-                    Ok(Some((k, m))) => ctx.violation(&k, case, m, Some(&|| fault_case(lin, r, trip).map(|e| e.1))),
-                    Err(p) => ctx.violation("conv.panic", case, format!("source-failure case panicked outside the caught call: {p}"), None),
-                }
-            }
-        }
-    }
-    ctx.add_evals(fault_n * 12);
-    ctx.rule("unwinding: floor / linear converter x ratio in {0.25,0.5,0.75,1,1.5,2,2.75,3,5} x the source failing (panicking) once on the call after 0..12 pulls, each next() under catch_unwind and the same converter used on: the 12 successful outputs and the frames handed over after each equal those of a failure-free run of the real converter");
     ctx.add_evals(evals.load(Relaxed) + nd_ratios.len() as u64);
     ctx.set("long_runs", json!(format!("{} non-dyadic ratios x {outputs} outputs (single executions, labelled)", nd_ratios.len())));
     ctx.set("exhaustive", json!(true));
